@@ -359,6 +359,27 @@ def main():
         m = re.search(r'name = "' + re.escape(name) + r'"\nversion = "([^"]+)"', lock)
         return m.group(1) if m else "?"
     out.append("/-- versions of the two signalling crates in Cargo.lock (their protocol is modelled from this source) -/\ndef chanSignalCrates : List String := " + strs(["async-event " + locked("async-event"), "diatomic-waker " + locked("diatomic-waker")]))
+    # ---- simulation.rs / sim_init.rs / model/context.rs: identifiers, table of names, observers (M-NAMES)
+    simn = norm(rd("simulation.rs"))
+    am = fn_body(simn, r"pub\(crate\) fn add_model<P: ProtoModel>\(")
+    nm_ok = False
+    if am is not None:
+        p1 = am.find("observers.push((name.clone(), Box::new(mailbox.0.observer())));")
+        p2 = am.find("let model = model.build(&mut build_cx);")
+        p3 = am.find("let model_id = ModelId::new(model_names.len()); model_names.push(name);")
+        p4 = am.find("ModelFuture::new(fut, model_id)")
+        nm_ok = 0 <= p1 < p2 < p3 < p4 and am.count("model_names.push") == 1 and am.count("observers.push") == 1 and am.count("ModelId::new") == 1
+    cxn = norm(rd("model/context.rs"))
+    sub_ok = re.search(r"let mut submodel_name = name\.into\(\); if submodel_name\.is_empty\(\) \{ submodel_name = String::from\(\"<unknown>\"\); \}; submodel_name = self\.name\.to_string\(\) \+ \"\.\" \+ &submodel_name; simulation::add_model\( model, mailbox, submodel_name, self\.scheduler\.clone\(\), self\.executor, self\.abort_signal, self\.model_names, self\.observers, \);", cxn) is not None
+    sin = norm(rd("simulation/sim_init.rs"))
+    top_ok = re.search(r"let mut name = name\.into\(\); if name\.is_empty\(\) \{ name = String::from\(\"<unknown>\"\); \}; let scheduler = GlobalScheduler::new\(self\.scheduler_queue\.clone\(\), self\.time\.reader\(\)\); add_model\( model, mailbox, name, scheduler, &self\.executor, &self\.abort_signal, &mut self\.model_names, &mut self\.observers, \);", sin) is not None
+    dl_ok = re.search(r"for \(model, observer\) in &self\.observers \{ let mailbox_size = observer\.len\(\); if mailbox_size != 0 \{ deadlock_info\.push\(DeadlockInfo \{ model: model\.clone\(\), mailbox_size, \}\); \} \}", simn) is not None
+    lk_ok = re.search(r"ExecutorError::Panic\(model_id, payload\) => \{ let model = model_id \.get\(\) \.map\(\|id\| self\.model_names\.get\(id\)\.unwrap\(\)\.clone\(\)\);", simn) is not None
+    out.append("/-- `simulation::add_model`: observer pushed, then `build`, then `model_id = model_names.len()` immediately followed by the push of the name, then the future spawned with that identifier -/\ndef namesIdTakenWhenNameIsPushed : Bool := " + b(nm_ok))
+    out.append("/-- `BuildContext::add_submodel` is `add_model` under `parent + \".\" + name` (`<unknown>` for an empty name) on the same two tables -/\ndef namesSubmodelIsQualified : Bool := " + b(sub_ok))
+    out.append("/-- `SimInit::add_model` is `add_model` under the given name (`<unknown>` for an empty name) -/\ndef namesTopLevelAsGiven : Bool := " + b(top_ok))
+    out.append("/-- the deadlock report lists the `(name, observer)` pairs of `observers` -/\ndef namesDeadlockUsesObserverPairs : Bool := " + b(dl_ok))
+    out.append("/-- panic and no-recipient reports look the name up with `model_names[model_id]` -/\ndef namesErrorLooksUpById : Bool := " + b(lk_ok))
     # ---- executor/mt_executor.rs: how the workers are made to leave (M-ABORT)
     mta = re.sub(r"#\[cfg\(nexosim_verif\)\] crate::verif_hooks::protocol_point\(\d+\); ?", "", mt)
     pma = norm(rd("executor/mt_executor/pool_manager.rs"))
